@@ -62,7 +62,7 @@ def main():
     mp = os.path.join(d, 'meta.json')
     if os.path.exists(mp):
         meta = json.load(open(mp))
-    checks = checks or meta.get('breaks') or []
+    checks = checks or (list(meta.get('breaks') or []) + [c for c in meta.get('also_checked_by', []) if c not in (meta.get('breaks') or [])])
     patch = os.path.join(d, 'patch.diff')
     demo = os.path.join(d, 'demo.py')
     out = {'dir': d, 'checks': {}, 'tier': tier}
